@@ -15,6 +15,9 @@
                    choice is strictly ahead (finding F03);
      fx = true  : the proposed repair — no strict maximum resolves to INVALID
                    (NO_QUORUM_MAJORITY_INVALID without quorum).
+   The correspondence cases are [TallyCase], [RatioCase], [VoteCase] and [LifeCase] (a history of lifecycle
+   events on the real application with the dispute records observed after every event: [life_spec] is the
+   executable reference of the lifecycle clause on those records, [life_diff] runs [step] on the same events).
    Definitions only; proofs are in Proofs/DisputeTallyProofs.v. *)
 From Coq Require Import ZArith List Bool String.
 From Verif Require Import Base.Harness.
@@ -730,13 +733,446 @@ Definition vote_spec (env : round_env) (vend : Z) (ops : list vote_op) (block_ok
                    "power-source: a voter record differs from team weight + tips + stake + balance"
       else []).
 
+(* ---- lifecycle correspondence (TestC12Lifecycle) ------------------------------------------------
+   One case = a history of lifecycle events run on the real application; after every event all
+   dispute records of the store (Disputes[id] + Votes[id], ids 1..n, in this order) and the amount
+   the payer was actually charged are observed.
+   [life_spec]: the property's lifecycle clause as an executable reference on the observed records
+   alone; [life_diff]: the lifecycle machine ([step]) run on the same events. *)
+(* layertypes.OnePercent: smallest fee msgServer.ProposeDispute accepts *)
+Definition MIN_FEE : Z := 10000.
+
+(* Disputes[id] and Votes[id] as observed *)
+Record drec := DR {
+  r_id : Z; r_status : dstatus; r_open : bool; r_pending : bool; r_round : Z;
+  r_start : Z; r_end : Z; r_fee_total : Z; r_slash : Z; r_burn : Z; r_dfee : Z;
+  r_prev : list Z;                                                   (* PrevDisputeIds *)
+  r_has_vote : bool; r_vote_start : Z; r_vote_end : Z; r_result : Z; r_executed : bool }.
+
+Inductive levent :=
+| LPropose (report slash fee : Z)   (* MsgProposeDispute on report #report (slash = GetDisputeFee of it):
+                                       a new dispute, or the next round of the report's lineage *)
+| LAddFee (id amt : Z)              (* MsgAddFeeToDispute *)
+| LVote (id : Z) (eligible : bool) (v : tally_data)
+                                    (* MsgVote by an address that has / has not (eligible) voted on id and has
+                                       power; v = what a tally of id reads after the message *)
+| LBlock (dt : Z) (env : list (Z * tally_data)).
+                                    (* next block dt ns later: dispute.BeginBlocker; env = what a tally reads,
+                                       for every dispute in voting *)
+
+(* result: 0 accepted / block ran, 1 transaction rejected, 2 BeginBlocker failed in expiry / tally,
+   3 BeginBlocker failed in the execution of a vote (settlement, property C13): the chain has halted *)
+Record lstep := LS { ls_ev : levent; ls_res : Z; ls_charged : Z; ls_recs : list drec }.
+
+(* The driver writes, for every event, the records that are new or differ (in any field) from the previous
+   observation; [expand] rebuilds the full observation after every event. *)
+Fixpoint rput (l : list drec) (r : drec) : list drec :=
+  match l with
+  | [] => [r]
+  | x :: t => if r_id x =? r_id r then r :: t else x :: rput t r
+  end.
+Fixpoint expand (prev : list drec) (steps : list lstep) : list lstep :=
+  match steps with
+  | [] => []
+  | s :: rest =>
+      let full := fold_left rput (ls_recs s) prev in
+      LS (ls_ev s) (ls_res s) (ls_charged s) full :: expand full rest
+  end.
+
+Definition status_code (s : dstatus) : Z :=
+  match s with Prevote => 0 | Voting => 1 | Resolved => 2 | Unresolved => 3 | Failed => 4 end.
+
+Definition drec_eqb (a b : drec) : bool :=
+  (r_id a =? r_id b) && dstatus_eqb (r_status a) (r_status b) && Bool.eqb (r_open a) (r_open b)
+  && Bool.eqb (r_pending a) (r_pending b) && (r_round a =? r_round b) && (r_start a =? r_start b)
+  && (r_end a =? r_end b) && (r_fee_total a =? r_fee_total b) && (r_slash a =? r_slash b)
+  && (r_burn a =? r_burn b) && (r_dfee a =? r_dfee b) && list_eqb Z.eqb (r_prev a) (r_prev b)
+  && Bool.eqb (r_has_vote a) (r_has_vote b) && (r_vote_start a =? r_vote_start b)
+  && (r_vote_end a =? r_vote_end b) && (r_result a =? r_result b) && Bool.eqb (r_executed a) (r_executed b).
+Definition recs_eqb : list drec -> list drec -> bool := list_eqb drec_eqb.
+
+(* the status graph of the property text, one edge or none *)
+Definition status_edge (a b : dstatus) : bool :=
+  match a, b with
+  | Prevote, Prevote | Voting, Voting | Resolved, Resolved | Unresolved, Unresolved | Failed, Failed
+  | Prevote, Voting | Prevote, Failed | Voting, Unresolved | Voting, Resolved | Unresolved, Resolved => true
+  | _, _ => false
+  end.
+
+(* [rank] on an observed record *)
+Definition rrank (r : drec) : Z :=
+  match r_status r with
+  | Prevote => 0
+  | Voting => 1
+  | Unresolved => if r_pending r then 2 else 3
+  | Resolved => if r_executed r then 5 else 4
+  | Failed => 5
+  end.
+
+Definition rlc_eqb (a b : drec) : bool :=
+  dstatus_eqb (r_status a) (r_status b) && Bool.eqb (r_open a) (r_open b) && Bool.eqb (r_pending a) (r_pending b)
+  && (r_result a =? r_result b) && Bool.eqb (r_executed a) (r_executed b) && (r_round a =? r_round b).
+
+(* the property's amounts: 5 % of the slash amount (rounded down), the fee of the round that follows round
+   [round] = 5 % doubled once per round so far, capped by the slash amount; sum of the round fees paid for rounds
+   2 .. n+1; burn amount of a dispute in round [round] = 5 % + all round fees so far.
+   (Proofs: [five_percent] and [round_fee], the code's Dec arithmetic, agree with them.) *)
+Definition pct5 (slash : Z) : Z := slash / 20.
+Definition rfee (slash round : Z) : Z := Z.min (pct5 slash * 2 ^ round) slash.
+Fixpoint fee_sum (slash : Z) (n : nat) : Z :=
+  match n with O => 0 | S k => fee_sum slash k + rfee slash (Z.of_nat (S k)) end.
+Definition burn_at (slash round : Z) : Z := pct5 slash + fee_sum slash (Z.to_nat (round - 1)).
+
+Definition funded (s : dstatus) : bool := match s with Prevote | Failed => false | _ => true end.
+
+(* what holds of every stored record at block time [now] (after the block's BeginBlocker) *)
+Definition rec_amounts_ok (r : drec) : bool :=
+  (1 <=? r_slash r) && (1 <=? r_round r) && (r_dfee r =? r_slash r - pct5 (r_slash r))
+  && (r_burn r =? burn_at (r_slash r) (r_round r))
+  && (if funded (r_status r) then r_fee_total r =? r_slash r + r_burn r - pct5 (r_slash r)
+      else (1 <=? r_fee_total r) && (r_fee_total r <? r_slash r) && (r_round r =? 1)).
+
+Definition rec_flags_ok (r : drec) : bool :=
+  match r_status r with
+  | Prevote => r_open r && negb (r_pending r) && negb (r_has_vote r) && (r_result r =? 0) && negb (r_executed r)
+  | Voting => r_open r && r_has_vote r && (r_result r =? 0) && negb (r_executed r)
+  | Failed => negb (r_open r) && negb (r_pending r) && negb (r_has_vote r) && (r_result r =? 0) && negb (r_executed r)
+  | Unresolved => r_has_vote r && (4 <=? r_result r) && (r_result r <=? 6) && negb (r_executed r)
+                  && Bool.eqb (r_open r) (r_pending r)
+  | Resolved => r_has_vote r && (1 <=? r_result r) && (r_result r <=? 6) && Bool.eqb (r_pending r) (negb (r_executed r))
+                && (if r_result r <=? 3 then negb (r_open r) else true)
+  end.
+
+Definition rec_times_ok (now : Z) (r : drec) : bool :=
+  (r_start r <=? now) &&
+  match r_status r with
+  | Prevote => (r_end r =? r_start r + ONE_DAY) && (now <=? r_end r)           (* else it has failed *)
+  | Failed => (r_end r =? r_start r + ONE_DAY) && (r_end r <? now)
+  | Voting => (r_start r <=? r_vote_start r) && (r_vote_end r =? r_vote_start r + TWO_DAYS)
+              && (r_end r =? r_vote_start r + THREE_DAYS) && (now <=? r_vote_end r)   (* else it has been tallied *)
+              && (if r_round r =? 1 then true else r_vote_start r =? r_start r)
+  | Unresolved => (r_end r =? r_vote_start r + THREE_DAYS) && (r_vote_start r + TWO_DAYS <? r_vote_end r)
+                  && (r_vote_end r <=? r_end r) && (r_vote_end r <=? now)
+                  && (if r_pending r then now <=? r_end r else true)            (* else it has been executed *)
+  | Resolved => (r_end r =? r_vote_start r + THREE_DAYS) && (r_vote_start r <=? r_vote_end r) && (r_vote_end r <=? now)
+  end.
+
+(* one record before / after one event *)
+Definition rec_step_ok (p n : drec) : bool :=
+  (r_id p =? r_id n) && status_edge (r_status p) (r_status n) && (rrank p <=? rrank n)
+  && (if rrank p =? rrank n then rlc_eqb p n else true)
+  && (r_slash p =? r_slash n) && (r_dfee p =? r_dfee n) && (r_start p =? r_start n) && (r_round p =? r_round n)
+  && (r_burn p =? r_burn n) && list_eqb Z.eqb (r_prev p) (r_prev n)
+  && (if r_has_vote p then r_has_vote n && (r_vote_start p =? r_vote_start n) else true)
+  && (r_fee_total p <=? r_fee_total n)
+  && (if dstatus_eqb (r_status p) Prevote then true else r_fee_total p =? r_fee_total n)
+  && ((r_end p =? r_end n) || (dstatus_eqb (r_status p) Prevote && dstatus_eqb (r_status n) Voting))
+  && (if r_result p =? 0 then true else (r_result p =? r_result n) && (r_vote_end p =? r_vote_end n))
+  && (if r_executed p then r_executed n else true).
+
+Fixpoint steps_ok (P N : list drec) : bool :=
+  match P, N with
+  | [], _ => true
+  | p :: P', n :: N' => rec_step_ok p n && steps_ok P' N'
+  | _ :: _, [] => false
+  end.
+
+Fixpoint ids_from (k : Z) (N : list drec) : bool :=
+  match N with [] => true | n :: N' => (r_id n =? k) && ids_from (k + 1) N' end.
+
+Definition zlen {A} (l : list A) : Z := Z.of_nat (List.length l).
+Definition rnth (l : list drec) (id : Z) : option drec := if id <? 1 then None else nth_error l (Z.to_nat (id - 1)).
+Definition rupd (l : list drec) (id : Z) (v : drec) : list drec := if id <? 1 then l else upd_nth (Z.to_nat (id - 1)) v l.
+Fixpoint split_last {A} (l : list A) : list A * option A :=
+  match l with
+  | [] => ([], None)
+  | [x] => ([], Some x)
+  | x :: t => let (a, b) := split_last t in (x :: a, b)
+  end.
+
+Definition with_life (r : drec) (st : dstatus) (op pe : bool) (vend res : Z) (ex : bool) : drec :=
+  DR (r_id r) st op pe (r_round r) (r_start r) (r_end r) (r_fee_total r) (r_slash r) (r_burn r) (r_dfee r) (r_prev r)
+     (r_has_vote r) (r_vote_start r) vend res ex.
+
+(* the record SetNewDispute / AddFeeToDispute leave when the fee is complete: voting starts at once *)
+Definition rec_voting (id round start now fee_total slash burn : Z) (prev : list Z) (pe : bool) : drec :=
+  DR id Voting true pe round start (now + THREE_DAYS) fee_total slash burn (slash - pct5 slash) prev
+     true now (now + TWO_DAYS) 0 false.
+
+(* new transitions (id, from, to) of one event *)
+Fixpoint transitions (P N : list drec) : list (Z * Z * Z) :=
+  match P, N with
+  | p :: P', n :: N' =>
+      (if dstatus_eqb (r_status p) (r_status n) then [] else [(r_id p, status_code (r_status p), status_code (r_status n))])
+      ++ transitions P' N'
+  | _, _ => []
+  end.
+Definition tr_eqb (a b : Z * Z * Z) : bool :=
+  (fst (fst a) =? fst (fst b)) && (snd (fst a) =? snd (fst b)) && (snd a =? snd b).
+Definition fresh_transitions (log new : list (Z * Z * Z)) : bool :=
+  forallb (fun t => negb (existsb (tr_eqb t) log)) new.
+
+(* ---- one event, accepted ---- *)
+Definition propose_spec (now : Z) (prev : list drec) (lin : list (Z * Z)) (report slash fee ch : Z) (N : list drec) : issues :=
+  let '(P', last) := split_last N in
+  match last with
+  | None => [Spec "propose: accepted but no dispute record was created"]
+  | Some n =>
+    let id := zlen prev + 1 in
+    spec_if (MIN_FEE <=? fee) "propose: a fee below the minimum was accepted"
+    ++ spec_if (r_id n =? id) "fresh-id: the new dispute does not take the id previous maximum + 1"
+    ++ match alookup report lin with
+       | None =>
+           let paid := Z.min fee slash in
+           spec_if (recs_eqb prev P') "propose: a new dispute changed an existing record"
+           ++ spec_if (ch =? paid) "propose: the payer of a new dispute was not charged min(fee, dispute fee)"
+           ++ spec_if (drec_eqb n (if paid =? slash
+                                  then rec_voting id 1 now now slash slash (pct5 slash) [id] false
+                                  else DR id Prevote true false 1 now (now + ONE_DAY) paid slash (pct5 slash)
+                                          (slash - pct5 slash) [id] false 0 0 0 false))
+                      "propose: record of the new dispute (prevote with one day to complete the fee, or voting at once)"
+       | Some k =>
+           match rnth prev k with
+           | None => [Spec "new-round: the lineage's last dispute is missing"]
+           | Some p =>
+             let rf := rfee (r_slash p) (r_round p) in
+             spec_if (dstatus_eqb (r_status p) Unresolved && r_open p && (now <=? r_end p))
+                     "new-round: a round was opened on a dispute that is not unresolved and open before its end time"
+             ++ spec_if (rf <=? fee) "new-round: a fee below the round fee was accepted"
+             ++ spec_if (ch =? rf)
+                        "round-fee: the payer was not charged min(5% of the slash amount * 2^(rounds so far), slash amount)"
+             ++ spec_if (recs_eqb (rupd prev k (with_life p (r_status p) false false (r_vote_end p) (r_result p) (r_executed p))) P')
+                        "new-round: the previous round was not closed (open and pending execution cleared) or another record changed"
+             ++ spec_if (drec_eqb n (rec_voting id (r_round p + 1) now now (r_fee_total p + rf) (r_slash p) (r_burn p + rf)
+                                               (r_prev p ++ [id]) (r_pending n)))
+                        "new-round: record of the new round (voting, round + 1, fee total and burn amount + round fee, previous ids + new id)"
+           end
+       end
+  end.
+
+Definition addfee_spec (now : Z) (prev : list drec) (id amt ch : Z) (N : list drec) : issues :=
+  match rnth prev id, rnth N id with
+  | Some p, Some n =>
+      let c := Z.min amt (r_slash p - r_fee_total p) in
+      spec_if (dstatus_eqb (r_status p) Prevote && (now <=? r_end p) && (1 <=? amt))
+              "add-fee: a fee was accepted for a dispute that is not in prevote before its end time"
+      ++ spec_if (ch =? c) "add-fee: the payer was not charged min(amount, missing fee)"
+      ++ spec_if (recs_eqb (rupd prev id n) N) "add-fee: another record changed"
+      ++ spec_if (drec_eqb n (if r_fee_total p + c =? r_slash p
+                             then rec_voting id (r_round p) (r_start p) now (r_slash p) (r_slash p) (r_burn p) (r_prev p) (r_pending p)
+                             else DR id (r_status p) (r_open p) (r_pending p) (r_round p) (r_start p) (r_end p) (r_fee_total p + c)
+                                     (r_slash p) (r_burn p) (r_dfee p) (r_prev p) (r_has_vote p) (r_vote_start p) (r_vote_end p)
+                                     (r_result p) (r_executed p)))
+                 "add-fee: record after the payment (fee total + charge; voting at once when complete)"
+  | _, _ => [Spec "add-fee: a fee was accepted for an unknown dispute id"]
+  end.
+
+Definition vote_life_spec (now : Z) (prev : list drec) (id : Z) (eligible : bool) (ch : Z) (N : list drec) : issues :=
+  match rnth prev id, rnth N id with
+  | Some p, Some n =>
+      spec_if (eligible && dstatus_eqb (r_status p) Voting && (now <=? r_vote_end p))
+              "vote: a vote was accepted outside voting (status, vote end) or from an address that had voted"
+      ++ spec_if (ch =? 0) "vote: the voter was charged"
+      ++ spec_if (recs_eqb (rupd prev id n) N) "vote: another record changed"
+      ++ spec_if (drec_eqb n p
+                  || ((1 <=? r_result n) && (r_result n <=? 3)
+                      && drec_eqb n (with_life p Resolved false true now (r_result n) false)))
+                 "vote: a vote changed the dispute other than by resolving it with quorum"
+  | _, _ => [Spec "vote: a vote was accepted for an unknown dispute id"]
+  end.
+
+(* dispute.BeginBlocker at time [now] for one record: expiry, tally, execution *)
+Definition block_rec_ok (now : Z) (p n : drec) : bool :=
+  match r_status p with
+  | Prevote =>
+      if r_end p <? now then drec_eqb n (with_life p Failed false (r_pending p) (r_vote_end p) (r_result p) (r_executed p))
+      else drec_eqb n p
+  | Voting =>
+      if r_vote_end p <? now then
+        (1 <=? r_result n) && (r_result n <=? 6) &&
+        (if (r_result n <=? 3) || (r_end p <? now)
+         then drec_eqb n (with_life p Resolved false false now (r_result n) true)
+         else drec_eqb n (with_life p Unresolved (r_open p) true now (r_result n) false))
+      else drec_eqb n p
+  | Unresolved =>
+      if r_pending p && (r_end p <? now)
+      then drec_eqb n (with_life p Resolved (r_open p) false (r_vote_end p) (r_result p) true)
+      else drec_eqb n p
+  | Resolved =>
+      if r_pending p then drec_eqb n (with_life p Resolved (r_open p) false (r_vote_end p) (r_result p) true)
+      else drec_eqb n p
+  | Failed => drec_eqb n p
+  end.
+Fixpoint block_recs_ok (now : Z) (P N : list drec) : bool :=
+  match P, N with
+  | [], [] => true
+  | p :: P', n :: N' => block_rec_ok now p n && block_recs_ok now P' N'
+  | _, _ => false
+  end.
+
+(* would the event have to be accepted (the payers of the driver are solvent, its reports real) *)
+Definition must_accept (now : Z) (prev : list drec) (lin : list (Z * Z)) (e : levent) : bool :=
+  match e with
+  | LPropose report slash fee =>
+      (MIN_FEE <=? fee) &&
+      match alookup report lin with
+      | None => 1 <=? slash
+      | Some k => match rnth prev k with
+                  | Some p => dstatus_eqb (r_status p) Unresolved && r_open p && (now <=? r_end p)
+                              && (rfee (r_slash p) (r_round p) <=? fee)
+                  | None => false end
+      end
+  | LAddFee id amt =>
+      match rnth prev id with
+      | Some p => dstatus_eqb (r_status p) Prevote && (now <=? r_end p) && (1 <=? amt)
+      | None => false end
+  | LVote id eligible _ =>
+      match rnth prev id with
+      | Some p => eligible && dstatus_eqb (r_status p) Voting && (now <=? r_vote_end p)
+      | None => false end
+  | LBlock _ _ => true
+  end.
+
+Definition lin_next (prev : list drec) (lin : list (Z * Z)) (s : lstep) : list (Z * Z) :=
+  match ls_ev s with
+  | LPropose report _ _ =>
+      if (ls_res s =? 0) && (zlen prev <? zlen (ls_recs s)) then aset report (zlen (ls_recs s)) lin else lin
+  | _ => lin
+  end.
+
+Definition step_spec (now : Z) (prev : list drec) (lin : list (Z * Z)) (log : list (Z * Z * Z)) (s : lstep) : issues :=
+  let N := ls_recs s in let ch := ls_charged s in
+  let now' := match ls_ev s with LBlock dt _ => now + dt | _ => now end in
+  spec_if (ids_from 1 N) "fresh-id: the stored disputes are not numbered 1..n"
+  ++ spec_if (steps_ok prev N)
+             "transition: a dispute moved against prevote -> voting -> unresolved -> resolved | prevote -> failed, its rank decreased, or a fixed field changed"
+  ++ spec_if (fresh_transitions log (transitions prev N)) "transition: the same transition happened twice for one dispute id"
+  ++ spec_if (forallb rec_amounts_ok N)
+             "amounts: slash amount, dispute fee, burn amount (5% + the round fees so far) or fee total of a record"
+  ++ spec_if (forallb rec_flags_ok N) "flags: status, open, pending execution, vote result and executed of a record disagree"
+  ++ spec_if (forallb (rec_times_ok now') N)
+             "times: start / end / vote end of a record, or a dispute past its deadline that was not expired, tallied or executed"
+  ++ (if ls_res s =? 1 then
+        spec_if (recs_eqb prev N && (ch =? 0)) "rejected: a rejected event changed a record or charged the payer"
+        ++ spec_if (negb (must_accept now prev lin (ls_ev s))) "rejected: an event that meets every condition was rejected"
+      else match ls_ev s with
+      | LPropose report slash fee => propose_spec now prev lin report slash fee ch N
+      | LAddFee id amt => addfee_spec now prev id amt ch N
+      | LVote id eligible _ => vote_life_spec now prev id eligible ch N
+      | LBlock dt _ =>
+          spec_if (0 <=? dt) "block: time went backwards"
+          ++ spec_if (ch =? 0) "block: a payer was charged"
+          ++ spec_if (block_recs_ok now' prev N)
+                     "block: BeginBlocker did not fail expired prevotes / tally ended votes / execute pending disputes exactly"
+      end).
+
+Fixpoint life_spec (now : Z) (prev : list drec) (lin : list (Z * Z)) (log : list (Z * Z * Z)) (steps : list lstep) : issues :=
+  match steps with
+  | [] => []
+  | s :: rest =>
+      if ls_res s =? 3 then
+        (* the execution of a vote failed inside BeginBlocker: the block is discarded and the chain halts;
+           payouts are the subject of C13 (F22) *)
+        spec_if (recs_eqb prev (ls_recs s) && match ls_ev s with LBlock _ _ => true | _ => false end)
+                "halt: records changed although the block failed"
+      else if ls_res s =? 2 then [Spec "halt: BeginBlocker failed while expiring or tallying disputes"]
+      else
+        match step_spec now prev lin log s with
+        | [] =>
+            let now' := match ls_ev s with LBlock dt _ => now + dt | _ => now end in
+            life_spec now' (ls_recs s) (lin_next prev lin s) (transitions prev (ls_recs s) ++ log) rest
+        | iss => iss
+        end
+  end.
+
+(* ---- the lifecycle machine on the same events ---- *)
+Definition idx (id : Z) : option nat := if id <? 1 then None else Some (Z.to_nat (id - 1)).
+
+Definition refresh (env : list (Z * tally_data)) (ds : list dispute) : list dispute :=
+  fold_left (fun ds kv => match idx (fst kv) with
+                          | Some i => match nth_error ds i with
+                                      | Some d => upd_nth i (set_votes d (snd kv)) ds
+                                      | None => ds end
+                          | None => ds end) env ds.
+
+Definition ft_at (w : world) (i : nat) : Z := match nth_error (w_ds w) i with Some d => d_fee_total d | None => 0 end.
+Definition grew (w w' : world) : bool := Nat.ltb (List.length (w_ds w)) (List.length (w_ds w')).
+Definition last_ft (w : world) : Z := ft_at w (Nat.pred (List.length (w_ds w))).
+
+(* Some (world, lineage map report -> last id, amount charged); None = BeginBlocker fails *)
+Definition life_model_step (fx : bool) (w : world) (lin : list (Z * Z)) (e : levent) : option (world * list (Z * Z) * Z) :=
+  match e with
+  | LPropose report slash fee =>
+      if fee <? MIN_FEE then Some (w, lin, 0) else
+      match alookup report lin with
+      | None =>
+          match step fx w (EPropose slash fee) with
+          | Some w' => if grew w w' then Some (w', aset report (zlen (w_ds w')) lin, last_ft w') else Some (w', lin, 0)
+          | None => None end
+      | Some k =>
+          match idx k with
+          | None => Some (w, lin, 0)
+          | Some i =>
+            match step fx w (ENewRound i fee) with
+            | Some w' => if grew w w' then Some (w', aset report (zlen (w_ds w')) lin, last_ft w' - ft_at w i) else Some (w', lin, 0)
+            | None => None end
+          end
+      end
+  | LAddFee id amt =>
+      match idx id with
+      | None => Some (w, lin, 0)
+      | Some i => match step fx w (EAddFee i amt) with Some w' => Some (w', lin, ft_at w' i - ft_at w i) | None => None end
+      end
+  | LVote id eligible v =>
+      if negb eligible then Some (w, lin, 0) else
+      match idx id with
+      | None => Some (w, lin, 0)
+      | Some i => match step fx w (EVote i v) with Some w' => Some (w', lin, 0) | None => None end
+      end
+  | LBlock dt env =>
+      match step fx (W (w_now w) (refresh env (w_ds w))) (EBlock dt) with Some w' => Some (w', lin, 0) | None => None end
+  end.
+
+Definition dmatch (d : dispute) (r : drec) : bool :=
+  dstatus_eqb (d_status d) (r_status r) && Bool.eqb (d_open d) (r_open r) && Bool.eqb (d_pending d) (r_pending r)
+  && (d_round d =? r_round r) && (d_end d =? r_end r) && (d_fee_total d =? r_fee_total r) && (d_slash d =? r_slash r)
+  && (d_burn d =? r_burn r) && Bool.eqb (d_has_vote d) (r_has_vote r)
+  && (if d_has_vote d then d_vote_end d =? r_vote_end r else true)
+  && (d_result d =? r_result r) && Bool.eqb (d_executed d) (r_executed r).
+
+Fixpoint ds_match (ds : list dispute) (rs : list drec) : bool :=
+  match ds, rs with
+  | [], [] => true
+  | d :: ds', r :: rs' => dmatch d r && ds_match ds' rs'
+  | _, _ => false
+  end.
+
+Fixpoint life_diff (fx : bool) (w : world) (lin : list (Z * Z)) (steps : list lstep) : issues :=
+  match steps with
+  | [] => []
+  | s :: rest =>
+      if 2 <=? ls_res s then [] else
+      match life_model_step fx w lin (ls_ev s) with
+      | None => [Diff "lifecycle: BeginBlocker fails in the model"]
+      | Some (w', lin', ch) =>
+          match diff_if (ds_match (w_ds w') (ls_recs s)) "lifecycle records"
+                ++ diff_if (ch =? ls_charged s) "charged fee" with
+          | [] => life_diff fx w' lin' rest
+          | iss => iss
+          end
+      end
+  end.
+
 Inductive c12_case :=
 | TallyCase (x : tally_in) (impl : tally_out)
 | RatioCase (total part impl : Z)
 (* a sequence of MsgVote on one dispute round: environment, initial vote end, operations, whether
    every keeper lookup used the dispute's block, the implementation's answers and final records *)
 | VoteCase (env : round_env) (vend : Z) (ops : list vote_op) (block_ok : bool)
-           (impl_res : list vote_res) (impl : round_state).
+           (impl_res : list vote_res) (impl : round_state)
+(* a history of lifecycle events on the real application, from block time t0 and an empty dispute store
+   (records delta-encoded, see [expand]) *)
+| LifeCase (t0 : Z) (steps : list lstep).
 
 Definition ratio_spec (total part impl : Z) : issues :=
   if total =? 0 then spec_if (impl =? 0) "ratio: zero total must give 0"
@@ -758,6 +1194,9 @@ Definition c12_check (c : c12_case) : issues :=
       ++ (let '(rs, st) := vote_run repo_fix_F03 env (round_start vend) ops in
           diff_if (list_eqb res_eqb rs impl_res) "vote results"
           ++ diff_if (state_eqb st impl) "vote records")
+  | LifeCase t0 steps =>
+      let full := expand [] steps in
+      life_spec t0 [] [] [] full ++ life_diff repo_fix_F03 (W t0 []) [] full
   end.
 
 (* signature predicates of the known findings:
@@ -778,4 +1217,5 @@ Definition c12_classes (c : c12_case) : list string :=
   | TallyCase x impl => match tally_spec x impl with [] => [] | _ => tally_classes x end
   | RatioCase _ _ _ => []
   | VoteCase _ _ _ _ impl_res _ => if existsb (res_eqb VTallyError) impl_res then ["F03"%string] else []
+  | LifeCase _ _ => []
   end.
